@@ -89,7 +89,8 @@ class IndexTyper:
         if isinstance(k, tuple) and k[0] == "RANGE":
             return k[1]
         if isinstance(k, tuple) and k[0] == "ENUM":
-            return ("TUP", [I(0), k[1]])
+            # enumerate(x, start=c): the counter is the position plus c
+            return ("TUP", [I(0, k[2]) if len(k) > 2 else I(0), k[1]])
         return UNK
 
     def bind(self, t: ast.AST, v: Any, st: ast.AST) -> None:
@@ -241,7 +242,12 @@ class IndexTyper:
                     return ("RANGE", I(lo[1], 0))
                 return ("RANGE", I(0))
             if f == "enumerate":
-                return ("ENUM", self.elem(args[0])) if args else UNK
+                start = e.args[1] if len(e.args) > 1 else next((k.value for k in e.keywords if k.arg == "start"), None)
+                if start is None:
+                    return ("ENUM", self.elem(args[0])) if args else UNK
+                if isinstance(start, ast.Constant) and isinstance(start.value, int) and not isinstance(start.value, bool) and args:
+                    return ("ENUM", self.elem(args[0]), start.value)
+                return UNK
             if f == "zip" and args:
                 return ("LIST", ("TUP", [self.elem(a) for a in args]))
             if (f.endswith(".update") or f.endswith(".extend")) and len(args) == 1 and isinstance(e.args[0], (ast.Tuple, ast.List, ast.Set)):
